@@ -15,7 +15,7 @@ Structural clauses decided (DESIGN.md section 4, C09):
 import re
 
 from facts import short_name, AnchorMissing
-from kinds import (result_blocks, comparisons, find_cmp, k1_callers, k2_site_guarded,
+from kinds import (rel, result_blocks, comparisons, find_cmp, k1_callers, k2_site_guarded,
                    arith_sites, div_before_mul, k7_panics, bool_const_return_blocks)
 
 CRATES = ["astria_conductor.lib", "astria_core.lib", "astria_merkle.lib",
@@ -242,14 +242,26 @@ def q2(prog, rep):
             else:
                 rep.ok("Q2", key, f"{kind} at L{line}")
     rep.floor("Q2", n, 1, "arithmetic sites in the quorum predicate")
-    # the predicate must compare its two parameters (not constants) with a strict inequality
+    # the predicate must compare its two parameters (not constants) with a strict inequality.
+    # The comparison may sit in a closure of the predicate (`..zip(..).is_some_and(|(c, t)| c > t)`)
+    # where the operands are closure parameters; a non-strict comparison anywhere in the
+    # predicate would accept exactly 2/3.
     body = prog.main_body(fn)
-    cm = [1 for i, j, p, rv, line in body.assigns() if rv[0] == "bin" and rv[1] in ("Gt", "Lt")
-          and re.search(r"commited|committed", body.root(rv[2]) + body.root(rv[3]))
-          and "total" in body.root(rv[2]) + body.root(rv[3])]
-    rep.check(bool(cm), "Q2", "strict-compare",
+    strict, nonstrict = [], []
+    for b in prog.bodies_of(fn):
+        for i, j, p, rv, line in b.assigns():
+            if rv[0] != "bin" or rv[1] not in ("Gt", "Lt", "Ge", "Le"):
+                continue
+            if rv[2][0] == "k" and rv[3][0] == "k":
+                continue
+            ra, rb = b.root(rv[2]), b.root(rv[3])
+            named = re.search(r"commited|committed", ra + rb) and "total" in ra + rb
+            if b is not body or named:
+                (strict if rv[1] in ("Gt", "Lt") else nonstrict).append((rv[1], ra, rb))
+    rep.check(bool(strict) and not nonstrict, "Q2", "strict-compare",
               "quorum predicate does not strictly compare (a function of) committed against "
-              "(a function of) total", body.describe())
+              f"(a function of) total (strict: {strict[:2]}, non-strict: {nonstrict[:2]})",
+              body.describe())
 
     # totals and tally in ensure_commit_has_quorum
     fn = BV + "ensure_commit_has_quorum"
@@ -264,7 +276,7 @@ def q2(prog, rep):
                 # triaged: a saturated tally equals u64::MAX and is then rejected by the
                 # `commit > total` test unless total is u64::MAX (total uses checked_add)
                 main = prog.main_body(fn)
-                gt = find_cmp(main, "Gt", r"^commit_voting_power$", r"try_fold|total", symmetric=False)
+                gt = rel(main, "Gt", r"^commit_voting_power$", r"try_fold|total")
                 oks = result_blocks(main, "Ok")
                 good = bool(gt) and all(main.must_pass_edges(set(gt[0].false_edges), o) for o in oks)
                 rep.check(good, "Q2", key + ":tally",
